@@ -286,8 +286,18 @@ Definition check_roundtrip (p obs : list sx) : verdict :=
             else []
         | None => []
         end in
+      (* known finding F27: an explicitly absent enhanced code (NoEnhancedCode) cannot be
+         told from "unset" on the wire, so the client does not get an equal SMTPError back *)
+      let '(viol27, kf27) :=
+        match e with
+        | BSmtp c x m =>
+            if (100 <=? c)%Z && (c <=? 999)%Z && ec_absent (spec_ec c x) && expect_mismatch expect c
+               && negb (sx_eqb (SL [XT "err"; oerr]) (show_cerr (CSmtp c no_ec m)))
+            then ([bs "C17"], [bs "F27"]) else ([], [])
+        | _ => ([], [])
+        end in
       mkV true (obs_is model obs) model
-          (c04_viol c' ec' [m'] owire ++ c17_wire_viol c' ec' m' owire ++ viol17) []
+          (c04_viol c' ec' [m'] owire ++ c17_wire_viol c' ec' m' owire ++ viol17 ++ viol27) kf27
           ([bs "roundtrip"; if via_data then bs "via-data" else bs "via-error";
             if expect_mismatch expect c' then bs "expect-mismatch" else bs "expect-match";
             match expected_at_client via_data e with Some _ => bs "judged" | None => bs "image-only" end]
